@@ -195,6 +195,56 @@ func runC10(c *Ctx, w *World, r *Report) {
 	if !ok {
 		return
 	}
+	// R-NOCONTRACT: the accessors are total over path words of every height up to 32; the debug contracts of the index
+	// functions encode the 30-level limit of a bitmap tree and must not be reachable from them
+	r.Rule("R-NOCONTRACT", "no path-word function (NewPath, PathBits, PathMask, PathLen, PathHeight, PathStr) reaches, through static calls inside the library, a call into the contract package openacid/must: the contracts of bmtree (pathCheck, bitmapSizeCheck) state the limits of a 30-level bitmap tree, path words exist for heights up to 32, and a contract that is a no-op in release builds panics under -tags debug")
+	for _, n := range names {
+		seen := map[*ssa.Function]bool{}
+		bad := ""
+		var walk func(f *ssa.Function, via string)
+		walk = func(f *ssa.Function, via string) {
+			if f == nil || seen[f] || f.Blocks == nil || !w.InModule(f) {
+				return
+			}
+			seen[f] = true
+			eachInstr(f, func(ins ssa.Instruction) {
+				var com *ssa.CallCommon
+				switch x := ins.(type) {
+				case *ssa.Call:
+					com = x.Common()
+				case *ssa.Defer:
+					com = x.Common()
+				case *ssa.Go:
+					com = x.Common()
+				case *ssa.MakeClosure:
+					if cf, ok := x.Fn.(*ssa.Function); ok {
+						walk(cf, via)
+					}
+					return
+				default:
+					return
+				}
+				if callee := com.StaticCallee(); callee != nil {
+					if callee.Pkg != nil && strings.Contains(callee.Pkg.Pkg.Path(), "openacid/must") {
+						bad = "reaches the contract call " + calleeName(com) + " at " + w.InstrPos(ins) + via
+						return
+					}
+					walk(callee, via+" via "+callee.Name())
+				} else if com.IsInvoke() {
+					if nt, ok := com.Value.Type().(*types.Named); ok && nt.Obj().Pkg() != nil && strings.Contains(nt.Obj().Pkg().Path(), "openacid/must") {
+						bad = "reaches the contract call " + com.Method.Name() + " at " + w.InstrPos(ins) + via
+					}
+				} else if mv := com.Value; mv != nil {
+					// must.Be.OK(..): a method of a package-level value of the contract package
+					if strings.Contains(mv.Type().String(), "openacid/must") || strings.Contains(mv.String(), "openacid/must") {
+						bad = "reaches a contract call at " + w.InstrPos(ins) + via
+					}
+				}
+			})
+		}
+		walk(fns[n], "")
+		r.Check(bad == "", "R-NOCONTRACT", n, w.Pos(fns[n].Pos()), bad, fmt.Sprintf("%d library functions reachable, none calls into openacid/must", len(seen)))
+	}
 	r.Rule("R-LAYOUT", "a path word is searching bits << 32 | mask, the mask being the low 32 bits: NewPath shifts the bits by 32 and ORs bitmap.Mask[length] << (height-length) (left aligned in height bits); PathBits = word >> 32; PathMask = low 32 bits; PathLen = popcount of the low 32 bits; PathHeight = bit length of the low 32 bits; PathStr prints the top PathLen bits: word >> (32 + PathHeight - PathLen), zero padded to PathLen digits, '' for the root")
 
 	chk := func(n string, bad string, facts ...string) {
